@@ -62,6 +62,10 @@ def run(rng, quick, chk):
         if len(c["prods"]) and max((len(p_[1]) for p_ in c["prods"]), default=0) <= 2 and c["nv"] <= 3:
             longw = any(len(w) >= 6 for w in g.words(9))
             chk("cfg-finite", g.is_finite() == (not longw), (c,))
+        if g.is_finite() and not g.is_empty():
+            ml = g.max_len(20)
+            if ml <= 9:
+                chk("cfg-max-len", ml == max(len(w) for w in g.words(9)), (c,))
     # ---- LL(1): table-driven reference parser vs bounded language on LL(1) grammars
     n_ll1 = 0
     from vf.props.c14 import ll1_biased, useless_free
